@@ -102,6 +102,7 @@ def main():
     ap.add_argument("--nproc", type=int, default=min(16, os.cpu_count() or 1))
     ap.add_argument("--no-evidence", action="store_true")
     ap.add_argument("--cfg", help="regex on config key")
+    ap.add_argument("--all-labels", action="store_true", help="discharge the obligations of every property, not only this one")
     args = ap.parse_args()
     seed = int(os.environ.get("VERIF_SEED", "0"))
     if args.list:
@@ -126,6 +127,7 @@ def main():
             jobs.append((h.name, ck, cfg))
     budget = spec.get("budget_s", {}).get(tier, 900 if tier == "quick" else 7200)
     deadline = t0 + budget
+    explore.WANT[0] = None if args.all_labels else {prop, "contract"}
     aggs = explore.explore_many(jobs, nproc=args.nproc, deadline=deadline)
 
     known = load_known()
